@@ -26,6 +26,13 @@ INFO = {
         'technique': _T,
         'not_decided': [],
     },
+    'C05': {
+        'level': 'translation_validation',
+        'level_text': 'A seeded family of type definitions over the derive attribute grammar is expanded by the real derive macros each run; for every definition the generated encode_to/forwarders/decode/max_encoded_len are proved (Verus, all values) against the layout computed from the definition alone; termination of the Encode defaults is a syntactic obligation per derived impl. A proof per program, programs sampled (seeded) plus fixed corner cases.',
+        'level_note': _TB + ' The "all definitions" quantifier is sampled; repr(transparent) decode_into and CompactAs not under contract.',
+        'technique': 'translation validation of derive output: contract-based proof (Verus) per expanded program against a layout spec generated from the definition',
+        'not_decided': ['repr(transparent) decode_into (pointer casts)', 'CompactAs derive', 'DecodeWithMemTracking derive', 'const-eval index checks (search_for_invalid_index / duplicate_info)'],
+    },
     'C07': {
         'level': 'proof',
         'level_text': 'The four Encode methods are tied to one spec_enc by the trait contract; every override and the default bodies of encode/using_encoded/encoded_size (with SizeTracker) are proved; bulk vs element-wise agreement is proved for the element-wise arms and bounded-checked for the transmute arms.',
